@@ -307,6 +307,7 @@ class Frame(Mut):
         self.cls = cls  # defining class (name mangling, super())
         self.parent = parent  # enclosing frame for closures
         self.name = name
+        self.maybe_unbound = set()
 
     def get_slots(self):
         return dict(self.locals)
